@@ -2,9 +2,12 @@
   C08 — threaded compression is correct, ordered and live under every schedule.
   Theorems about the labelled transition system `XzVerif.MtEnc` (Model/MtEnc.lean): all of them quantify over every state
   reachable by ANY interleaving of main-thread and worker steps (= every schedule, every spurious wake-up, every time-out).
-  Helper lemmas are in Lemmas/MtEncA..I.lean.
+  Helper lemmas are in Lemmas/MtEncA..K.lean.
+  The last section instantiates the abstract Block encoder with the concrete container + LZMA2 encoder models and links the
+  result to C01's end-to-end round trip (Props/C01EndToEndAll.lean).
 -/
-import XzVerif.Lemmas.MtEncI
+import XzVerif.Lemmas.MtEncK
+import XzVerif.Props.C01EndToEndAll
 import XzVerif.Gen.C08
 
 namespace XzVerif.C08
@@ -191,7 +194,7 @@ theorem chunk_positive : 0 < Gen.C08.inChunkMax := by decide
 
 /-- **mtenc_worker_error_signals**: worker_error() is one critical section under coder->mutex that sets `thread_error` (first error
     wins) and signals coder->cond. -/
-theorem mtenc_worker_error_signals {P : Params} {s s' : St} {i : Nat} {r : Ret} (hs : step P s (.wEncErr i r) = some s') :
+theorem mtenc_worker_error_signals {P : Params} {s s' : St} {i : Nat} {r : MtEnc.Ret} (hs : step P s (.wEncErr i r) = some s') :
     s'.err = some (s.err.getD r) ∧ s'.mWoken = true := by
   simp only [step, wEncErr] at hs
   split at hs; · cases hs
@@ -205,7 +208,7 @@ theorem mtenc_worker_error_signals {P : Params} {s s' : St} {i : Nat} {r : Ret} 
     of the predicate), the wake-up has been delivered, so it must not sleep: the wake-up step leads to the top of the loop and the
     next critical section makes lzma_code() return exactly that error. -/
 theorem mtenc_error_returns {P : Params} {c : Cfg} (h1 : 0 < c.bs) (h2 : 0 < c.tmax) {s : St} (hr : Reachable P c s)
-    (hw : s.mpc = .waiting) {r : Ret} (he : s.err = some r) :
+    (hw : s.mpc = .waiting) {r : MtEnc.Ret} (he : s.err = some r) :
     waitCond s = true ∧ s.mWoken = true ∧
     ∃ s1 s2, step P s .mWake = some s1 ∧ s1.mpc = .loopTop ∧ step P s1 .mRead = some s2 ∧
       s2.mpc = .failed ∧ s2.lastRet = some (s.act, r) := by
@@ -289,7 +292,7 @@ def exTrace3 : List Ev := [.reinit { bs := 3, tmax := 1 }, .mExitIdle, .wExitIdl
 structure Obs where
   mpc : MPc
   seq : Seq
-  lastRet : Option (Action × Ret)
+  lastRet : Option (Action × MtEnc.Ret)
   out : Bytes
   qlen : Nat
   flushPts : List Nat
@@ -371,5 +374,174 @@ theorem oldReinit_lost_forever (s : OldReinit.S) (e : OldReinit.E) (s' : OldRein
     and only then the worker adds its old `out_pos`: the new Stream reports 12 + 116 bytes although it has produced nothing. -/
 example : (OldReinit.run {} [.assign, .wTop, .stopSignal, .wJob, .wMarkIdle, .stopWaitDone, .wTail]).map
     (fun s => (s.newStream, s.coderProgOut)) = some (true, 128) := by decide
+
+-- ---------------------------------------------------------------------------------------------------------------------
+-- the abstract Block encoder instantiated: end-to-end round trip of the threaded encoder under every schedule
+-- ---------------------------------------------------------------------------------------------------------------------
+section Std
+open XzVerif.Container XzVerif.XzDecode XzVerif.XzEnv XzVerif.XzEncEnv XzVerif.E2E
+open XzVerif.XzEncode (EncEnv streamEncodeMT)
+
+/-- the delivered Blocks of a finished Stream: non-empty, at most block_size long, cut only at block_size / flush offsets, every
+    flush offset a boundary -/
+theorem ended_blocks {P : Params} {c : Cfg} (h1 : 0 < c.bs) (h2 : 0 < c.tmax) {s : St} (hr : Reachable P c s) (hend : s.seq = .ended) :
+    cutsOk s.cfg.bs s.flushPts (doneShape s.done) 0 ∧ (∀ f ∈ s.flushPts, f ∈ closedEnds (doneShape s.done) 0) ∧
+    (∀ d ∈ s.done.map (·.data), 0 < d.length ∧ d.length ≤ s.cfg.bs) ∧ (s.done.map (·.data)).flatten = s.consumed := by
+  have h := mtenc_inv h1 h2 hr
+  have hq := (h.b.seqTail (Or.inr hend)).1
+  have hsh : allShape s = doneShape s.done := by simp [allShape, hq, shape]
+  have hc := h.k.cuts; rw [hsh] at hc
+  have hf := h.k.flush; rw [hsh] at hf
+  refine ⟨hc, hf, ?_, ?_⟩
+  · intro d hd; obtain ⟨b, hb, rfl⟩ := List.mem_map.mp hd; exact doneShape_lens s.done 0 hc b hb
+  · have := (mtenc_output h1 h2 hr hend).2.1
+    simpa [datas] using this
+
+/-- **mtenc_output_eq_streamEncodeMT** (any encoder environment): the bytes the LTS has written when LZMA_FINISH returned
+    LZMA_STREAM_END are exactly what the container model `XzEncode.streamEncodeMT` writes for the delivered Blocks — for every
+    thread count and every schedule. -/
+theorem mtenc_output_eq_streamEncodeMT (E : EncEnv) (check : Nat) (fs : List FilterOpts) (bs : Nat) {c : Cfg} (h1 : 0 < c.bs)
+    (h2 : 0 < c.tmax) {s : St} (hr : Reachable (encParams E check fs bs) c s) (hend : s.seq = .ended) (hbs : s.cfg.bs = bs)
+    (out : List UInt8) (henc : streamEncodeMT E { check := check, filters := fs } bs (s.done.map (·.data)) = .ok out) :
+    s.out = out :=
+  let h := mtenc_inv h1 h2 hr
+  out_eq_streamEncodeMT E check fs bs h.b h.c h.k hend hbs out henc
+
+/-- **mtenc_output_decodes_env**: the same for any environment `E` that agrees with the standard one (`stdEncEnv p parser`: delta/BCJ
+    models, the executable LZMA2 chunker driven by `parser`, CRC32/CRC64/SHA-256) on the delivered Blocks — the form the
+    kernel-evaluated example below uses (payload table). -/
+theorem mtenc_output_decodes_env (p : Lzma.Props) (parser : Parser) (hp : ParserOk parser) (E : EncEnv) (check : Nat)
+    (fs : List FilterOpts) (bs : Nat) {c : Cfg} (h1 : 0 < c.bs) (h2 : 0 < c.tmax) {s : St}
+    (hr : Reachable (encParams E check fs bs) c s) (hend : s.seq = .ended) (hbs : s.cfg.bs = bs)
+    (hE1 : E.rawInit = (stdEncEnv p parser).rawInit) (hE2 : E.check = (stdEncEnv p parser).check)
+    (hE3 : ∀ b ∈ s.done, E.encPayload fs b.data = (stdEncEnv p parser).encPayload fs b.data)
+    (hfs : xzChain p fs = true) (hx86 : fs.any isX86 = true → bs + 5 < 2 ^ 32)
+    (out : List UInt8) (henc : streamEncodeMT E { check := check, filters := fs } bs (s.done.map (·.data)) = .ok out)
+    (fl : Flags) (cap : Nat) (hcap : s.consumed.length ≤ cap) :
+    s.out = out ∧
+    xzDecode stdEnv fl s.out cap
+      = { ret := .streamEnd, out := s.consumed, consumed := s.out.length, events := headerEvents stdEnv fl check } ∧
+    ValidXz stdEnv fl s.out cap s.consumed s.out.length ∧ DValidXz stdEnv fl s.out cap s.consumed s.out.length ∧
+    cutsOk bs s.flushPts (doneShape s.done) 0 ∧ (∀ f ∈ s.flushPts, f ∈ closedEnds (doneShape s.done) 0) := by
+  obtain ⟨hc, hf, hl, hflat⟩ := ended_blocks h1 h2 hr hend
+  rw [hbs] at hc hl
+  have ho := mtenc_output_eq_streamEncodeMT E check fs bs h1 h2 hr hend hbs out henc
+  have henc' : streamEncodeMT (stdEncEnv p parser) { check := check, filters := fs } bs (s.done.map (·.data)) = .ok out := by
+    rw [← henc]
+    refine (streamEncodeMT_congr E (stdEncEnv p parser) _ bs _ hE1 hE2 ?_).symm
+    rw [flatMap_chunksOf bs _ hl]
+    intro d hd
+    obtain ⟨b, hb, rfl⟩ := List.mem_map.mp hd
+    exact hE3 b hb
+  have hrt := C01E2E.xz_roundtrip_std_mt_stateless p parser hp { check := check, filters := fs } bs (s.done.map (·.data)) out fl cap
+    hfs hx86 henc' (by rw [hflat]; exact hcap)
+  rw [hflat, ← ho] at hrt
+  exact ⟨ho, hrt.1, hrt.2.1, hrt.2.2, hc, hf⟩
+
+/-- **mtenc_output_decodes_std** — NO abstract encoder left. For every LZMA2 option set `p`, every parser with the stateless contract
+    (`literalParser`, `runParser`, any `ParserOk`), every Check, every supported filter chain (x86 chains: block_size < 4 GiB − 5, C15's
+    bound, as in C01E2E), every block size, every number of threads, every sequence of lzma_code calls (inputs, output space,
+    RUN / FULL_FLUSH / FULL_BARRIER / FINISH) and EVERY schedule of the main thread and the workers (all states reachable in the LTS,
+    incl. spurious wake-ups and time-outs): when LZMA_FINISH has returned LZMA_STREAM_END, the bytes written
+      * are exactly the container model's `streamEncodeMT` of the delivered Blocks (given that it returns LZMA_OK: `henc`, the same
+        residual hypothesis as in C01E2E — it fails only on the size limits of the format),
+      * decode under the decoder model `xzDecode stdEnv` to exactly the input consumed, LZMA_STREAM_END, everything consumed,
+      * are valid per both grammars (`ValidXz`, `DValidXz`),
+      * and the Block boundaries are the requested ones (`cutsOk`: only at block_size and at flush/barrier/finish offsets; every such
+        offset is a boundary). -/
+theorem mtenc_output_decodes_std (p : Lzma.Props) (parser : Parser) (hp : ParserOk parser) (check : Nat) (fs : List FilterOpts)
+    (bs : Nat) {c : Cfg} (h1 : 0 < c.bs) (h2 : 0 < c.tmax) {s : St}
+    (hr : Reachable (encParams (stdEncEnv p parser) check fs bs) c s) (hend : s.seq = .ended) (hbs : s.cfg.bs = bs)
+    (hfs : xzChain p fs = true) (hx86 : fs.any isX86 = true → bs + 5 < 2 ^ 32)
+    (out : List UInt8)
+    (henc : streamEncodeMT (stdEncEnv p parser) { check := check, filters := fs } bs (s.done.map (·.data)) = .ok out)
+    (fl : Flags) (cap : Nat) (hcap : s.consumed.length ≤ cap) :
+    s.out = out ∧
+    xzDecode stdEnv fl s.out cap
+      = { ret := .streamEnd, out := s.consumed, consumed := s.out.length, events := headerEvents stdEnv fl check } ∧
+    ValidXz stdEnv fl s.out cap s.consumed s.out.length ∧ DValidXz stdEnv fl s.out cap s.consumed s.out.length ∧
+    cutsOk bs s.flushPts (doneShape s.done) 0 ∧ (∀ f ∈ s.flushPts, f ∈ closedEnds (doneShape s.done) 0) :=
+  mtenc_output_decodes_env p parser hp (stdEncEnv p parser) check fs bs h1 h2 hr hend hbs rfl rfl (fun _ _ => rfl) hfs hx86 out henc
+    fl cap hcap
+
+/-- … with the all-literals parser (its contract is proved for every input in Lemmas/E2EParsers.lean) -/
+theorem mtenc_output_decodes_std_literal (p : Lzma.Props) (check : Nat) (fs : List FilterOpts) (bs : Nat) {c : Cfg} (h1 : 0 < c.bs)
+    (h2 : 0 < c.tmax) {s : St} (hr : Reachable (encParams (stdEncEnv p literalParser) check fs bs) c s) (hend : s.seq = .ended)
+    (hbs : s.cfg.bs = bs) (hfs : xzChain p fs = true) (hx86 : fs.any isX86 = true → bs + 5 < 2 ^ 32) (out : List UInt8)
+    (henc : streamEncodeMT (stdEncEnv p literalParser) { check := check, filters := fs } bs (s.done.map (·.data)) = .ok out)
+    (fl : Flags) (cap : Nat) (hcap : s.consumed.length ≤ cap) :
+    xzDecode stdEnv fl s.out cap
+      = { ret := .streamEnd, out := s.consumed, consumed := s.out.length, events := headerEvents stdEnv fl check } ∧
+    DValidXz stdEnv fl s.out cap s.consumed s.out.length :=
+  let h := mtenc_output_decodes_std p literalParser literalParser_ok check fs bs h1 h2 hr hend hbs hfs hx86 out henc fl cap hcap
+  ⟨h.2.1, h.2.2.2.1⟩
+
+/-- … and with the parser that emits matches -/
+theorem mtenc_output_decodes_std_run (p : Lzma.Props) (check : Nat) (fs : List FilterOpts) (bs : Nat) {c : Cfg} (h1 : 0 < c.bs)
+    (h2 : 0 < c.tmax) {s : St} (hr : Reachable (encParams (stdEncEnv p runParser) check fs bs) c s) (hend : s.seq = .ended)
+    (hbs : s.cfg.bs = bs) (hfs : xzChain p fs = true) (hx86 : fs.any isX86 = true → bs + 5 < 2 ^ 32) (out : List UInt8)
+    (henc : streamEncodeMT (stdEncEnv p runParser) { check := check, filters := fs } bs (s.done.map (·.data)) = .ok out)
+    (fl : Flags) (cap : Nat) (hcap : s.consumed.length ≤ cap) :
+    xzDecode stdEnv fl s.out cap
+      = { ret := .streamEnd, out := s.consumed, consumed := s.out.length, events := headerEvents stdEnv fl check } ∧
+    DValidXz stdEnv fl s.out cap s.consumed s.out.length :=
+  let h := mtenc_output_decodes_std p runParser runParser_ok check fs bs h1 h2 hr hend hbs hfs hx86 out henc fl cap hcap
+  ⟨h.2.1, h.2.2.2.1⟩
+
+/-! ### kernel-evaluated example: 2 threads, 2 Blocks, a FULL_BARRIER, the second Block finishes FIRST
+
+  "ab" + FULL_BARRIER, "c" + FINISH, block_size 4, CRC32, LZMA2 (dict 4 KiB, lc=lp=pb=0), literal parser. Two workers are created; the
+  worker of Block 1 publishes before the worker of Block 0 (the main thread wakes up, finds nothing readable at the head of the
+  queue and sleeps again); the output is nevertheless in input order and is the container model's output. The payloads are
+  evaluated once by the kernel (`rawEncodeK`, payload table as in Props/C01EndToEnd.lean), then the LTS is run by the kernel. -/
+
+def stdExTbl : List (List UInt8 × List UInt8) := [([0x61, 0x62], [1, 0, 1, 97, 98, 0]), ([0x63], [1, 0, 0, 99, 0])]
+
+theorem stdExTbl_ok : ∀ e ∈ stdExTbl, rawEncodeK C01E2E.exP literalParser C01E2E.exCfg.filters e.1 = some e.2 := by decide +kernel
+
+def stdExP : Params := encParams (tableEnv C01E2E.exP stdExTbl) 1 [.lzma2 4096] 4
+
+def stdExTrace : List Ev :=
+  [.call [0x61, 0x62] 1000 .fullBarrier, .mHdr, .mRead, .mEncIn, .mEncIn, .mEncIn, .mAfterIn,
+   .call [0x63] 1000 .finish, .mRead, .mEncIn, .mEncIn, .mEncIn, .mAfterIn, .mWake,
+   .wTop 1 20, .wEnc 1 false 20, .wMarkIdle 1, .wTail 1, .mWake,
+   .wTop 0 20, .wEnc 0 false 20, .wMarkIdle 0, .wTail 0, .mWake, .mRead, .mRead, .mRead, .mEncIn, .mAfterIn, .mTail]
+
+def stdExOut : List UInt8 :=
+  [253, 55, 122, 88, 90, 0, 0, 1, 105, 34, 222, 54, 2, 192, 6, 2, 33, 1, 0, 0, 142, 85, 207, 94, 1, 0, 1, 97, 98, 0, 0,
+   0, 109, 72, 131, 158, 2, 192, 5, 1, 33, 1, 0, 0, 240, 93, 251, 159, 1, 0, 0, 99, 0, 0, 0, 0, 111, 223, 185, 6, 0, 2,
+   22, 2, 21, 1, 0, 0, 60, 177, 247, 59, 62, 48, 13, 139, 2, 0, 0, 0, 0, 1, 89, 90]
+
+theorem stdEx_run : ∃ s, run stdExP (initSt { bs := 4, tmax := 2 } stdExP) stdExTrace = some s ∧ s.seq = .ended ∧ s.cfg.bs = 4 ∧
+    s.ninit = 2 ∧ s.out = stdExOut ∧ s.done.map (·.data) = [[0x61, 0x62], [0x63]] ∧ s.consumed = [0x61, 0x62, 0x63] ∧
+    s.flushPts = [2, 2, 3, 3] := by decide +kernel
+
+theorem stdEx_container : streamEncodeMT (tableEnv C01E2E.exP stdExTbl) { check := 1, filters := [.lzma2 4096] } 4
+    [[0x61, 0x62], [0x63]] = .ok stdExOut := by decide +kernel
+
+/-- the example is an instance of `mtenc_output_decodes_env`: the bytes of this schedule decode to "abc" -/
+theorem stdEx_decodes :
+    xzDecode stdEnv {} stdExOut UNLIMITED
+      = { ret := .streamEnd, out := [0x61, 0x62, 0x63], consumed := stdExOut.length, events := headerEvents stdEnv {} 1 } ∧
+    DValidXz stdEnv {} stdExOut UNLIMITED [0x61, 0x62, 0x63] stdExOut.length := by
+  obtain ⟨s, hrun, hend, hbs, _, hout, hdone, hcons, _⟩ := stdEx_run
+  have hr : Reachable stdExP { bs := 4, tmax := 2 } s := reachable_run _ Reachable.init hrun
+  have hE3 : ∀ b ∈ s.done, (tableEnv C01E2E.exP stdExTbl).encPayload [.lzma2 4096] b.data
+      = (stdEncEnv C01E2E.exP literalParser).encPayload [.lzma2 4096] b.data := by
+    intro b hb
+    have hm : b.data ∈ s.done.map (·.data) := List.mem_map.mpr ⟨b, hb, rfl⟩
+    rw [hdone] at hm
+    refine table_agrees C01E2E.exP literalParser [.lzma2 4096] stdExTbl stdExTbl_ok b.data ?_
+    simp only [List.mem_cons, List.mem_nil_iff, or_false] at hm
+    rcases hm with hm | hm <;> rw [hm] <;> decide
+  have henc : streamEncodeMT (tableEnv C01E2E.exP stdExTbl) { check := 1, filters := [.lzma2 4096] } 4 (s.done.map (·.data))
+      = .ok stdExOut := by rw [hdone]; exact stdEx_container
+  have h := mtenc_output_decodes_env C01E2E.exP literalParser literalParser_ok (tableEnv C01E2E.exP stdExTbl) 1 [.lzma2 4096] 4
+    (c := { bs := 4, tmax := 2 }) (by decide) (by decide) hr hend hbs rfl rfl hE3 (by decide) (by intro h; simp [isX86] at h)
+    stdExOut henc {} UNLIMITED (by rw [hcons]; decide)
+  rw [hout, hcons] at h
+  exact ⟨h.2.1, h.2.2.2.1⟩
+
+end Std
 
 end XzVerif.C08
